@@ -12,6 +12,7 @@ Fixpoint enc_val (v : val) : list Z :=
   | VNone => [4]
   | VBool b => [5; if b then 1 else 0]
   | VOpaque => [6]
+  | VArr l => 7 :: Z.of_nat (length l) :: (fix go (l : list val) : list Z := match l with [] => [] | x :: t => enc_val x ++ go t end) l
   end.
 
 Definition enc_res (r : res val) : list Z :=
